@@ -55,10 +55,15 @@ def wnaf_form_steps(ctx, windows):
         c2 = cat(limbs_of(ex.load(s2, ex.local_ref(fr, 'c'))))
         digits = ex.load(s2, vec)
         pc = z3.And(*[C.mk(p) for p in s2.pc])
-        if len(digits.f) != 1:
-            chk.ground('wnaf_form(w=%d): buffer truncated at entry, exactly one digit pushed per iteration' % w, False, 'buffer has %d entries' % len(digits.f))
+        junk_kept = len(digits.f) >= 2 and all(isinstance(x_, BV) and x_.concrete for x_ in digits.f[:2]) and [x_.v for x_ in digits.f[:2]] == [7, -3 % (1 << 64)] or \
+            (len(digits.f) >= 2 and [getattr(x_, 'v', None) for x_ in digits.f[:2]] == [7, -3])
+        chk.ground('wnaf_form(w=%d): digits left in the buffer by an earlier use are discarded' % w, not junk_kept, 'buffer starts with the old digits: %d entries' % len(digits.f))
+        if junk_kept:
             continue
-        chk.ground('wnaf_form(w=%d): buffer truncated at entry, exactly one digit pushed per iteration' % w, True)
+        if len(digits.f) != 1:
+            chk.shape('wnaf_form(w=%d): exactly one digit pushed per iteration' % w, False, 'buffer has %d entries' % len(digits.f))
+            continue
+        chk.shape('wnaf_form(w=%d): exactly one digit pushed per iteration' % w, True)
         u = digits.f[0].z()
         cz, c2z, uz = z3.ZeroExt(W - 256, c), z3.ZeroExt(W - 256, c2), z3.SignExt(W - 64, u)
         pre = 'wnaf_form(w=%d) step: ' % w
@@ -177,9 +182,9 @@ def wnaf_exp_steps(ctx, proj, aff, gname, windows):
         pre = '%s wnaf_table(w=%d) step: ' % (gname, w)
         rng = got.get('range') or []
         ok_rng = len(rng) >= 1 and all(r_.f[0].concrete and r_.f[1].concrete and r_.f[0].v == 0 and r_.f[1].v == (1 << (w - 1)) for r_ in rng)
-        chk.ground(pre + 'trip count 2^(w-1), table emptied at entry', ok_rng and got.get('len_at_head') == 0, str(rng)[:100])
+        chk.shape(pre + 'trip count 2^(w-1), table emptied at entry', ok_rng and got.get('len_at_head') == 0, str(rng)[:100])
         if len(t.f) != 1:
-            chk.ground(pre + 'one push per iteration', False, 'len %d' % len(t.f))
+            chk.shape(pre + 'one push per iteration', False, 'len %d' % len(t.f))
             continue
         chk.must_unsat(pre + "pushes the running base and advances it by 2*base0", z3.Or(t.f[0].c[0] != b, nb != b + 2 * g0), group='wnaf-table-step')
     chk.add_executor(ex)
